@@ -94,8 +94,47 @@ def check(prog, run):
         check_sgio(prog, run)
         check_iscsi(prog, run)
         check_facade(prog, run)
+        check_with_block(prog, run)
     finally:
         I.stubs.pop(SENSE_INIT, None)
+
+
+def check_with_block(prog, run):
+    """an error raised inside `with SCSI(dev) as s:` (or `with dev:`) leaves the block: __exit__ must not return anything
+    that could be true -- with an error in flight, and whatever the transport's close() hands back"""
+    I = prog.I
+    from ..facade_eval import SCSI_MOD
+    scsi_cls = prog.cls(SCSI_MOD, "SCSI")
+    for label, mk in (("SCSI over SG_IO", lambda: _facade(prog, scsi_cls, make_scsi_device(prog))),
+                      ("SCSI over iSCSI", lambda: _facade(prog, scsi_cls, make_iscsi_device(prog))),
+                      ("SCSIDevice", lambda: make_scsi_device(prog)), ("ISCSIDevice", lambda: make_iscsi_device(prog))):
+        si = StandIn(prog).install()
+        try:
+            def t(mk=mk):
+                o = mk()
+                f = I.get_attr(o, "__exit__", None, _F())
+                err = Instance(o.cls.lookup("CheckCondition")[0]) if isinstance(o.cls.lookup("CheckCondition")[0], ClassVal) else Instance(I.bclasses["RuntimeError"])
+                return I.call(f, [err.cls, err, None], {}, None, _F())
+            ps = I.explore(t, max_paths=16)
+        finally:
+            si.remove()
+        fn = mk().cls.lookup("__exit__")[0]
+        for p in ps:
+            c = "%s.__exit__ with a failed command's error in flight" % label
+            if p.returned and I.static_truth(p.value) is False:
+                run.ok("error-leaves-the-with-block", c)
+            elif p.returned:
+                run.violation("error-leaves-the-with-block", c,
+                              "__exit__ returns %r: when that is true python discards the error raised inside the with block and the "
+                              "failed command looks like a successful one" % (p.value,), prog.rel(fn.module), fn.node.lineno, fn.qualname)
+            else:
+                run.ok("error-leaves-the-with-block", c + " (close itself raises %s)" % exc_name(p), nontrivial=False)
+
+
+def _facade(prog, scsi_cls, dev):
+    s = Instance(scsi_cls)
+    s.attrs["device"] = dev
+    return s
 
 
 def check_classes(prog, run):
